@@ -104,6 +104,7 @@ func NewRunnerOn(rec *Rec, p *Program, dir string, rp RunParams) *Runner {
 	r := &Runner{Mode: "seq", Rng: rand.New(rand.NewSource(rp.Seed)), Dir: dir, seen: map[[3]uint64]bool{},
 		ReadEvery: true, Probe: rp.Probe, FullEvery: rp.FullEvery, Alt: rp.Alt}
 	r.S = NewSess(rec, p.Cfg, RootFS(p.Cfg.FS), dir, p.ID, Ev{"prog": p, "run": rp})
+	r.S.ClosedRes = p.Cfg.FS == "os" || p.Cfg.FS == "osmmap"
 	r.S.AfterInjected = r.afterInjected
 	r.S.Hold = rp.Hold
 	r.S.WalStates = rp.WalStates
